@@ -651,6 +651,10 @@ func payloadScenario(r *vrt.DirectReport, tier string) {
 		{"with-include", []seg{lit("head "), v("v1"), lit(" "), inc("part")}},
 		{"part", []seg{lit("[part "), v("v2"), lit("]")}},
 		{"json", []seg{lit("{\"list\": \""), v("v1"), lit("\", \"n\": "), v("v2"), lit("}")}},
+		// the utility functions the handbook offers to entry contents: they look variables up themselves
+		{"override", []seg{lit("o="), {override: "v1"}, lit(";")}},
+		{"override-legacy", []seg{{override: "v1", legacy: true}, lit("|"), v("v2")}},
+		{"override-and-plain", []seg{v("v1"), lit("|"), {override: "v1"}}},
 	}
 	siblings := map[string][]seg{}
 	for _, tp := range templates {
@@ -669,14 +673,14 @@ func payloadScenario(r *vrt.DirectReport, tier string) {
 	if tier == "thorough" {
 		values = []string{"x", "a,b_c-d", ""}
 	}
-	// all bindings: each of v1, v2, v3 (v3 is used by no template) absent or one of the values
+	// all bindings: each of v1, v2, p_v1 (p_v1 is used by the override templates only) absent or one of the values
 	var bindings []binding
 	opts := len(values) + 1
 	total := opts * opts * opts
 	for k := 0; k < total; k++ {
 		b := binding{}
 		kk := k
-		for _, name := range []string{"v1", "v2", "v3"} {
+		for _, name := range []string{"v1", "v2", "p_v1"} {
 			o := kk % opts
 			kk /= opts
 			if o > 0 {
@@ -700,6 +704,12 @@ func payloadScenario(r *vrt.DirectReport, tier string) {
 				for _, x := range s {
 					if x.varName != "" {
 						nvars[x.varName] = true
+					}
+					if x.upper != "" {
+						nvars[x.upper] = true
+					}
+					if x.override != "" {
+						nvars[x.override], nvars["p_"+x.override] = true, true
 					}
 					if x.include != "" {
 						count(siblings[x.include])
@@ -776,7 +786,7 @@ func payloadScenario(r *vrt.DirectReport, tier string) {
 			f.fail("missing-entry-without-error", "GetAndProcessComponentConfiguration(c1/PHYSICS/r1/nothing-here, %v) returned no error", b)
 		}
 	}
-	r.Notes = append(r.Notes, fmt.Sprintf("grid: folders %v x %d templates (0..2 variables, sibling inclusion, sub-folder) x all ordered pairs of %d bindings (v1,v2,v3 each absent or one of %q) on a fresh service = %d processed retrievals", folders, len(templates), len(bindings), values, calls))
+	r.Notes = append(r.Notes, fmt.Sprintf("grid: folders %v x %d templates (0..2 variables, sibling inclusion, sub-folder) x all ordered pairs of %d bindings (v1,v2,p_v1 each absent or one of %q) on a fresh service = %d processed retrievals", folders, len(templates), len(bindings), values, calls))
 	r.Samples = append(r.Samples, fmt.Sprintf("entry %q with {v1=x} -> %q", source(templates[2].segs), render(templates[2].segs, siblings, binding{"v1": "x"})))
 }
 
